@@ -1,13 +1,35 @@
 #!/bin/bash
-# tools/mutant.sh <ID> <patch.diff> [tier]: apply a patch to /repo, run the check, always revert.
+# tools/mutant.sh <ID> <patch.diff> [tier]: run a check against /repo + patch WITHOUT touching /repo
+# (patched copies of the affected files are supplied through a build overlay).
 # prints MUTANT-CAUGHT / MUTANT-MISSED / MUTANT-INCONCLUSIVE
 id=$1; patch=$(readlink -f "$2"); tier=${3:-quick}
 cd "$(dirname "$0")/.."
-if ! git -C /repo diff --quiet; then echo "/repo is dirty, refusing"; exit 3; fi
-git -C /repo apply "$patch" || { echo "patch does not apply"; exit 3; }
-trap 'git -C /repo checkout -- . ; git -C /repo clean -fdq -- server pkg client tests 2>/dev/null' EXIT
-./check "$id" "$tier" > build/mutant.out 2>&1; rc=$?
-tail -5 build/mutant.out
+tmp=$(mktemp -d /tmp/pdmut.XXXXXX)
+trap 'rm -rf $tmp' EXIT
+python3 - "$patch" "$tmp" <<'PY' || { echo "MUTANT-INCONCLUSIVE $id $(basename $patch) (cannot prepare overlay)"; exit 3; }
+import sys, os, re, shutil, json, subprocess
+patch, tmp = sys.argv[1], sys.argv[2]
+files = []
+for line in open(patch):
+    m = re.match(r'^\+\+\+ (?:b/)?(\S+)', line)
+    if m and m.group(1) != '/dev/null':
+        f = m.group(1)
+        f = re.sub(r'^/repo/', '', f)
+        files.append(f)
+repl = {}
+for f in files:
+    dst = os.path.join(tmp, 'src', f)
+    os.makedirs(os.path.dirname(dst), exist_ok=True)
+    if os.path.exists(os.path.join('/repo', f)):
+        shutil.copy(os.path.join('/repo', f), dst)
+    repl[os.path.join('/repo', f)] = dst
+r = subprocess.run(['patch', '-p1', '-s', '-d', os.path.join(tmp, 'src'), '-i', patch])
+if r.returncode != 0:
+    sys.exit(1)
+json.dump({'Replace': repl}, open(os.path.join(tmp, 'ov.json'), 'w'))
+PY
+VERIF_EXTRA_OVERLAY=$tmp/ov.json ./check "$id" "$tier" > build/mutant.$id.out 2>&1; rc=$?
+tail -5 build/mutant.$id.out
 case $rc in
  1) echo "MUTANT-CAUGHT $id $(basename $patch)";;
  0) echo "MUTANT-MISSED $id $(basename $patch)";;
